@@ -201,6 +201,9 @@ def seeded(args):
             cmd = [sys.executable, "-B", os.path.join(ROOT, "run_check.py"), prop, "--repo", scratch, "--evidence-dir", "none", "--minimise-s", "10"]
             if args.runs:
                 cmd += ["--runs", str(args.runs)]
+            # an entry may say what it takes to be caught (e.g. the whole quick tier
+            # even on a loaded machine, where the wall-clock budget would cut it short)
+            cmd += [str(x) for x in meta.get("check_args", [])]
             rc, out = run(cmd)
             first = [l for l in out.splitlines() if l.startswith("violation:")][:1]
             note = [l for l in out.splitlines() if l.startswith("NOTE")][:1]
